@@ -51,7 +51,10 @@ def history(rng, case, n=2, weights=None, langs_of_case=True):
             kw = {}
         st = case.get("settings")
         r = rng.random()
-        if r < 0.45:
+        tw = equal_instant_twin(st)
+        if tw is not None and r < 0.5:
+            ps = tw                               # equal under ==, another reference day / clock for the library
+        elif r < 0.45:
             ps = dict(st) if st else None             # equal settings: the same Settings object inside the library
         elif r < 0.7:
             ps = None
@@ -100,3 +103,25 @@ def bystanders(rng, present=("day", "month", "year"), share=0.3):
                                ("PREFER_LOCALE_DATE_ORDER", True), ("TO_TIMEZONE", None) if False else ("CACHE_SIZE_LIMIT", 1000)])
         out[key] = val
     return out
+
+
+# --------------------------------------------------------------------------- equal, but not the same
+def equal_instant_twin(settings):
+    """Settings that are equal to `settings` under == but mean something else to the library: a timezone-aware
+    RELATIVE_BASE written as the SAME INSTANT in another zone (aware datetimes compare and hash by instant; their calendar
+    fields - the reference day, weekday, clock - differ).  None when the settings hold no aware reference."""
+    import datetime as _d
+    rb = (settings or {}).get("RELATIVE_BASE")
+    if not isinstance(rb, dict) or rb.get("tz") is None:
+        return None
+    off = 0 if rb["tz"] == "UTC" else rb["tz"]
+    if not isinstance(off, int):
+        return None
+    new = off - 18000 if off >= 0 else off + 25200          # far enough to land on another calendar day near midnight
+    try:
+        d = _d.datetime(*rb["dt"][:7]) + _d.timedelta(seconds=new - off)
+    except (OverflowError, ValueError):
+        return None
+    tw = dict(settings)
+    tw["RELATIVE_BASE"] = {"dt": [d.year, d.month, d.day, d.hour, d.minute, d.second, d.microsecond], "tz": new}
+    return tw
